@@ -189,6 +189,8 @@ fn node_order(n: usize, order: u8) -> Vec<usize> {
 pub fn rec_name(kind: usize, r: u32) -> String {
     match kind {
         0 if r == 9 => String::new(),
+        // over-long gene symbol whose byte 255 falls inside a three-byte character (bytes 253..256)
+        0 if r == 2 => "A".repeat(253) + "\u{20ac}" + "b",
         0 => format!("G{r}"),
         // disease 2 of each kind has a name whose byte length exceeds its character count
         1 if r == 2 => "\u{d6}2".to_string(),
@@ -203,6 +205,8 @@ pub fn name_of(node: usize) -> String {
         3 => "\u{e9}".repeat(150) + "x",
         // exactly 255 bytes
         4 => "y".repeat(255),
+        // over-long name whose byte 255 falls inside a four-byte character (bytes 252..256)
+        2 => "B".repeat(252) + "\u{1f600}" + "z",
         _ => format!("term {node} \u{e9}"),
     }
 }
@@ -1031,7 +1035,9 @@ pub fn check_c07(c: &Case) -> Check {
         }
     }
     let cmp = o.compare(&o2);
-    if c.n <= 3 && !(cmp.added_hpo_terms().is_empty() && cmp.removed_hpo_terms().is_empty() && cmp.changed_hpo_terms().is_empty()
+    // (names beyond the documented 255-byte limit are cut by the format: compare() then rightly reports a rename)
+    let any_long = o.iter().any(|t| t.name().len() > 255) || o.genes().any(|g| g.name().len() > 255);
+    if !any_long && !(cmp.added_hpo_terms().is_empty() && cmp.removed_hpo_terms().is_empty() && cmp.changed_hpo_terms().is_empty()
         && cmp.added_genes().is_empty() && cmp.removed_genes().is_empty() && cmp.changed_genes().is_empty()
         && cmp.added_omim_diseases().is_empty() && cmp.removed_omim_diseases().is_empty() && cmp.changed_omim_diseases().is_empty()
         && cmp.added_orpha_diseases().is_empty() && cmp.removed_orpha_diseases().is_empty() && cmp.changed_orpha_diseases().is_empty())
@@ -1697,6 +1703,10 @@ pub fn encode(c: &Case, e: &Enc) -> Vec<u8> {
                 if e.rename_rec == Some((kind, *r)) {
                     name += "x";
                 }
+                if kind == 0 {
+                    // gene symbols are limited to 255 bytes in the file (one length byte)
+                    name = name255(&name);
+                }
                 let nb = name.as_bytes();
                 let mut v = vec![];
                 if kind == 0 {
@@ -1823,6 +1833,18 @@ pub fn check_c08(c: &Case) -> Check {
                             return Err(format!("a file announcing the unsupported version byte {vb} was accepted"));
                         }
                     }
+                } else {
+                    // the same announcement in front of a body in the (headerless) v1 layout: there is no version 1 header
+                    for vb in 0..=255u8 {
+                        if vb == 2 || vb == 3 {
+                            continue;
+                        }
+                        let mut b5 = vec![0x48u8, 0x50, 0x4f, vb];
+                        b5.extend(&bytes);
+                        if let Ok(Ok(_)) = load(&b5) {
+                            return Err(format!("a file announcing the unsupported version byte {vb} in front of a v1-layout body was accepted"));
+                        }
+                    }
                 }
             }
         }
@@ -1863,6 +1885,9 @@ fn variant_facts(v: &Variant) -> Facts {
             if let Some(e) = &v.enc {
                 if e.rename_rec == Some((kind, *r)) {
                     name += "x";
+                }
+                if kind == 0 {
+                    name = name255(&name);
                 }
             }
             recs[kind].insert(*r, (name, m.idset(ds)));
